@@ -12,6 +12,7 @@
 import Core.Interleave
 import Core.Props.C05
 import Core.Props.C02chain
+import Core.Props.C07
 open Std
 
 set_option maxRecDepth 100000
@@ -46,6 +47,53 @@ theorem tickSync_round_kept (env : Env) (cfg : Cfg) (n : Node) (ts : Int) (perm 
     rw [produce_eq_produceOn]
     cases Node.produceOn env cfg n.led n.led ts perm rid <;> rfl
   · rfl
+
+/-- what survives the unserializable interleaving: the ledger is still DERIVED (C07) — the state is the replay of the
+    chain minus its tip — and the chain is never shorter than the round's outcome; what is lost is that the new tip
+    replays on that state (C02 for the next confirmation), as the counterexample below shows -/
+theorem tickSync_derived (env : Env) (cfg : Cfg) (n : Node) (ts : Int) (perm : List Tx) (rid : String)
+    (now : Int) (resps : List Resp) (pick : Nat) (hd : Derived n.led) :
+    Derived (stepTickSync env cfg n ts perm rid now resps pick).led := by
+  unfold stepTickSync
+  split
+  · cases hpick : (Sync.outcomes env cfg n.led now resps)[pick]? with
+    | none =>
+      simp only []
+      -- the plain tick
+      rename_i hperm
+      simp only [step, hperm, if_true]
+      cases hp : n.produce env cfg ts perm rid with
+      | none => simpa using hd
+      | some n' =>
+        simp only [Option.getD_some]
+        obtain ⟨txs, addrs, ha⟩ := produce_addBlock env cfg n n' ts perm rid hp
+        exact addBlock_derived env _ _ _ _ _ hd ha
+    | some l' =>
+      simp only []
+      have hd' : Derived l' := outcomes_derived env cfg n.led now resps hd l' (List.mem_of_getElem? hpick)
+      cases hpo : Node.produceOn env cfg n.led l' ts perm rid with
+      | none => exact hd'
+      | some led =>
+        simp only []
+        -- `produceOn` ended with a successful `AddBlock` on `l'`
+        unfold Node.produceOn at hpo
+        simp only [] at hpo
+        split at hpo
+        · cases hpo
+        · split at hpo
+          · cases hpo
+          · cases hu : n.led.utxos.update n.led.lastTxs (n.led.lastTs + cfg.interval) with
+            | error e => rw [hu] at hpo; cases hpo
+            | ok copy =>
+              rw [hu] at hpo
+              simp only [] at hpo
+              split at hpo
+              · cases hpo
+              · rename_i led' ha
+                injection hpo with hpo
+                subst hpo
+                exact addBlock_derived env _ _ _ _ _ hd' ha
+  · exact hd
 
 namespace C16ex
 
